@@ -197,6 +197,11 @@ def run(prog: Program, rep, tier: str) -> None:
                       f"default argument `{U(d)}` is a constant (a call here is evaluated once at import and shared by every later call)" + (f" (listed exception: {why})" if why else ""),
                       fi.loc(d))
     rep.pin("module-level bindings, class attributes and default values classified", n_bind, 120)
+    # the inputs of a solve (problem, params, scaling, starting point) are state that outlives it: a solve that writes into them
+    # changes what the next solve computes - the ownership analysis of C11 decides that
+    from . import c11
+    from .c01 import _SubReport
+    c11.run(prog, _SubReport(rep, keep=("no-write-to-caller-owned",)), "quick")
     # the two warn-once closures: value reaches only logger.warning
     ev = prog.module("pygradflow.eval")
     wo = ev.functions.get("warn_once")
@@ -380,9 +385,12 @@ def accumulating_state(prog: Program, rep) -> None:
             raise AnalysisError(f"{q}.solve has vanished")
         ff = facts_for(sv)
         first_loop = min([s.index for s in ff.order if isinstance(s.stmt, (ast.While, ast.For)) and not s.loops], default=10 ** 9)
+        loop_facts = next((set(s.facts) for s in ff.order if s.index == first_loop), set())
         fresh = {}
         for s in ff.order:
-            if isinstance(s.stmt, ast.Assign) and not s.loops and s.index < first_loop:
+            # the store must be on every path into the loop: a store under a condition the loop is not under (`if self.t is None:
+            # .. self.a = ..` - a set-up-once block) leaves the old value in place on the other paths
+            if isinstance(s.stmt, ast.Assign) and not s.loops and s.index < first_loop and set(s.facts) <= loop_facts:
                 for t in s.stmt.targets:
                     if is_self_attr(t) and not any(is_self_attr(n, t.attr) and isinstance(n.ctx, ast.Load) for n in ast.walk(s.stmt.value)):
                         fresh.setdefault(t.attr, s)
@@ -395,7 +403,17 @@ def accumulating_state(prog: Program, rep) -> None:
                     accum.setdefault(n.target.attr, (m, n))
                 elif isinstance(n, ast.Assign):
                     for t in n.targets:
-                        if is_self_attr(t) and any(is_self_attr(k, t.attr) and isinstance(k.ctx, ast.Load) for k in ast.walk(n.value)):
+                        if not is_self_attr(t):
+                            continue
+                        val = n.value
+                        if not any(is_self_attr(k, t.attr) for k in ast.walk(val)) and any(isinstance(k, ast.Name) for k in ast.walk(val)):
+                            try:
+                                val = facts_for(m).resolved(n, n.value)     # `nxt = 10 * self.a; self.a = nxt`
+                            except Exception:
+                                val = n.value
+                        import re as _re
+                        if any(is_self_attr(k, t.attr) and isinstance(k.ctx, ast.Load) for k in ast.walk(val)) or \
+                                (val is not n.value and _re.search(r"\bself\." + _re.escape(t.attr) + r"\b", U(val))):      # also inside a loop-carried marker
                             accum.setdefault(t.attr, (m, n))
                 elif isinstance(n, ast.Call) and isinstance(n.func, ast.Attribute) and n.func.attr in ("append", "extend", "add", "update", "insert") and is_self_attr(n.func.value):
                     accum.setdefault(n.func.value.attr, (m, n))
